@@ -75,7 +75,17 @@ package keeper
 
 
 // Withdraw: settles an order that ends early; the unearned part goes back from the market escrow to the order escrow and the
-// order's own completed shards stop earning. (The exact refund formula is a sum over the order's shards: not yet specified.)
+// order's own completed shards stop earning. The refund is the order's amount less the quoted price, plus, per listed shard,
+// what the shard has not earned yet: refundTerm below, summed over the order's shard list by the ghost function refundSum
+// (defined by its two equations over a snapshot of the Shard store; all amounts in 10^-18 units as sdk.Dec).
+//@ pure refundTerm(s order_Shard, found bool, oid int, price int, odur int, h int) int =
+//@     (!found || s.OrderId > oid) ? 0 :
+//@     ((s.Status == ShardCompleted && s.OrderId == oid) ? price * i64(s.Size_) * i64(i64(u64(s.CreatedAt + s.Duration)) - h) :
+//@     (s.Status == ShardWaiting ? price * i64(s.Size_) * i64(odur) : 0))
+//@ ghost refundSum(Slice_Int, int, KV_Shard, int, int, int, int) int
+//@ axiom refundSum.zero: forall l Slice_Int, n int, st KV_Shard, oid int, p int, d int, h int :: n <= 0 ==> refundSum(l, n, st, oid, p, d, h) == 0
+//@ axiom refundSum.step: forall l Slice_Int, n int, st KV_Shard, oid int, p int, d int, h int :: n > 0 ==> refundSum(l, n, st, oid, p, d, h)
+//@       == refundSum(l, n - 1, st, oid, p, d, h) + refundTerm(within(st, Shard, Shard[l[n - 1]]), within(st, Shard, has(Shard, l[n - 1])), oid, p, d, h)
 //@ func (Keeper) Withdraw(ctx, order) (refund, err)
 //@   modifies Worker, Bank
 //@   ensures [C04.withdraw.bank] forall a addr, d string :: a != moduleAddr("market") && a != moduleAddr("order") ==> bal(a, d) == old(bal(a, d))
@@ -83,10 +93,19 @@ package keeper
 //@       bal(moduleAddr("order"), refund.Denom) == old(bal(moduleAddr("order"), refund.Denom)) + refund.Amount
 //@       && bal(moduleAddr("market"), refund.Denom) == old(bal(moduleAddr("market"), refund.Denom)) - refund.Amount
 //@   ensures [C04.withdraw.nonneg] err == nil ==> refund.Amount >= 0
+//@   ensures [C04.withdraw.amount] [C06.withdraw.amount] err == nil
+//@       && order.Amount.Amount * 1000000000000000000 - order.UnitPrice.Amount * i64(order.Size_) * i64(order.Replica) * i64(order.Duration)
+//@          + refundSum(order.Shards, len(order.Shards), old(snap(Shard)), order.Id, order.UnitPrice.Amount, order.Duration, H) >= 0 ==>
+//@       refund.Denom == order.Amount.Denom && refund.Amount == div(order.Amount.Amount * 1000000000000000000
+//@          - order.UnitPrice.Amount * i64(order.Size_) * i64(order.Replica) * i64(order.Duration)
+//@          + refundSum(order.Shards, len(order.Shards), old(snap(Shard)), order.Id, order.UnitPrice.Amount, order.Duration, H), 1000000000000000000)
 //@   ensures [C04.withdraw.notstarted] err == nil && order.Amount.Amount > 0 && (forall j int :: 0 <= j && j < len(order.Shards) && has(Shard, order.Shards[j]) ==>
 //@         Shard[order.Shards[j]].Status == ShardCompleted && Shard[order.Shards[j]].OrderId < order.Id) ==> refund.Amount >= order.Amount.Amount - 1
 //@   loop L1 invariant -1 <= rangeindex
 //@   loop L1 invariant forall a addr, d string :: bal(a, d) == old(bal(a, d))
+//@   loop L1 invariant [C04.withdraw.amount] rangeindex < len(order.Shards) && refundDec == order.Amount.Amount * 1000000000000000000
+//@          - order.UnitPrice.Amount * i64(order.Size_) * i64(order.Replica) * i64(order.Duration)
+//@          + refundSum(order.Shards, rangeindex + 1, old(snap(Shard)), order.Id, order.UnitPrice.Amount, order.Duration, H)
 
 // GetAllWorker: the genesis export of the Worker store - every stored record, each exactly as stored
 //@ func (Keeper) GetAllWorker(ctx) (list)
